@@ -5,7 +5,7 @@ unchecked (R2), "committed" state is recorded only after success and undone afte
 failure (R4), the allocation slow path retries once and then reports ENOMEM (R5), a huge segment never relies on lazy commit (R6).
 Not decided: behaviour for every position of an injected fault sequence; "fully usable again afterwards".
 """
-import rl
+import rl, shared
 from facts import AnalysisBroken
 
 LEVEL = "other"
@@ -180,6 +180,7 @@ def r3(ctx, prog):
             w = w or cfg.must_pass([q], cfg.exit_points(), undo)
         ctx.check(R, w is None and bool(claims), h.where(), "failed commit: the blocks_committed bits claimed before the attempt are released again (same count and index), "
                   "otherwise a later claim of the range is handed out without a commit", key="C07.R3:mi_arena_try_alloc_at:undo", witness=w)
+    shared.arena_commit_whole_range(ctx, R, prog)
     k = prog.fn("_mi_arena_free")
     ok = any(rl.is_call(k, c, "_mi_bitmap_unclaim_across") and k.mentions_field(rl.arg(k, c, 0), "blocks_committed") for c in k.calls("_mi_bitmap_unclaim_across"))
     ctx.check(R, ok, k.where(), "_mi_arena_free clears blocks_committed for a range that is not fully committed", key="C07.R3:arena_free")
@@ -230,6 +231,11 @@ def r5(ctx, prog):
     cfg = f.cfg
     finds = list(f.calls("mi_find_page"))
     ctx.check(R, len(finds) == 2, f.where(), "mi_find_page is called twice (first try, retry)", key="C07.R5:two")
+    if len(finds) == 2:
+        a0 = [rl.canon(f, a) for a in f.nodes[finds[0]]["args"]]
+        a1 = [rl.canon(f, a) for a in f.nodes[finds[1]]["args"]]
+        ctx.check(R, a0 == a1, f.where(finds[1]), "the retry repeats the original request: mi_find_page(%s) vs mi_find_page(%s) — the caller's layout assumptions (e.g. a dedicated "
+                  "over-aligned huge page) depend on every argument" % (", ".join(a0), ", ".join(a1)), key="C07.R5:same_request")
     pages = {rl.var_of(f, x) for x in []}
     pd = None
     for c in finds:
